@@ -398,7 +398,11 @@ VarUnits(da, base, p, rd, r) ==
 \* ---------------------------------------------------------------- applying a signature to units
 \* "Th" = temperature (offset-unit family K, degC, degF, R).  No case mixes temperature with length, so its exponent
 \* is carried in the first component of the vector (the harness projects it there)
+\* "Tm" = temperature again, in its MULTIPLICATIVE units (K, mK, R, delta_degF, delta_degC: degrees of different width, no
+\* zero point) - a third dimension through the whole table, so that a unit formula that treats one dimension specially
+\* is seen; "N" = an operand given BARE (plain ndarray / list / float): it carries no dimension
 DimOf(d) == CASE d = "L" -> <<1, 0>> [] d = "T" -> <<0, 1>> [] d = "iL" -> <<-1, 0>> [] d = "iT" -> <<0, -1>> [] d = "Th" -> <<1, 0>>
+              [] d = "Tm" -> <<1, 0>> [] d = "N" -> <<0, 0>>
 DegAt(deg, i, n) == IF i <= n THEN deg[i] ELSE 0
 \* doubled exponent vector <<2 eL, 2 eT>> of  prod_i u_i^(deg_i/2)
 ExpDims(deg, us) ==
